@@ -80,6 +80,19 @@ CHECKS = {
         'dict semantics ("last write wins") modelled as an association list; ids are the printed CURIE values (C04).',
         'Lean 4 proof (fold over the binding list) + exhaustive small-scope/random differential correspondence',
         'DESIGN.md §6 C06'),
+    'C08': (
+        'Lean 4 theorems on the aggregation layer: one disease per distinct database id (first-seen order), one annotation per '
+        'distinct aspect-P phenotype id, name from the first line, aspect-I ids as duplicate-free modes of inheritance; numerator and '
+        'denominator = sums of the per-line ratios, references/modifiers = unions; stored annotations have 0 <= n, 0 < d; for '
+        'well-formed cells 0 <= n <= d and present iff n > 0; for EVERY table row with lower <= freq <= upper and every cohort size the '
+        'half-even rounded numerator is within 1/2 of [lower*c, upper*c]; a percentage is within 1/2 of p*c/100; permuting the lines '
+        'permutes keys and groups and leaves every annotation\'s sums and sets unchanged. Tie: the frequency table is read from the '
+        'running code (exact rationals of the floats, incl. the VALUE of .frequency) and the side condition is evaluated by the model; '
+        'random files x cohort sizes x salvage x shuffles; the property\'s clauses are also checked directly on the implementation.',
+        'tab splitting, header handling and the four regexes are executable glue in the driver (tied by the correspondence run, not '
+        'by theorems); doubles: both neighbours accepted when the exact product is within 2^-30 of a tie; onset/sex/curators unused.',
+        'Lean 4 proof (grouping/fold/rounding lemmas, parametric in the source-extracted table) + differential correspondence',
+        'DESIGN.md §6 C08'),
     'C09': (
         'Lean 4 theorems (core): the count of t is the number of present annotations inside the module having t among their '
         'ancestors-or-self (duplicate-free ancestor lists: C01), nothing outside the module is counted; the final table is c(t) when '
